@@ -72,6 +72,7 @@ ENCODERS = {"SteaneEncoder": "steane", "ColorEncoder5": "color5"}
 GATES1 = ["X", "Y", "Z", "H", "S", "S_DAG", "SQRT_X", "SQRT_X_DAG", "SQRT_Y", "SQRT_Y_DAG"]
 GATES2 = ["CX", "CZ"]
 EXTRA1 = ["H_XY", "H_YZ", "C_XYZ", "C_ZYX"]   # outside the property's gate set; observations only
+REUSE_KEY = "SteaneEncoder:reuse-after-transversal-M:M 0; H 0; M 0"
 TOL_DET = 1e-6
 TOL_OBS = 1e-5
 
@@ -201,7 +202,7 @@ def sem_program(rng, k: int, det_w: int, budget: int = 13, body_len=None):
             # mid-circuit measurement; the qubit is not used afterwards
             q = rng.choice(alive)
             alive.remove(q)
-            body.append(f"M {q}")
+            body.append(f"M {'!' if rng.random() < 0.25 else ''}{q}")
             pending.append(measured)
             measured += 1
             if rng.random() < 0.5:
@@ -212,7 +213,7 @@ def sem_program(rng, k: int, det_w: int, budget: int = 13, body_len=None):
     if len(final) > 1 and rng.random() < 0.25:
         final = final[:-1]          # leave one logical qubit unmeasured
     if final:
-        body.append("M " + " ".join(map(str, final)))
+        body.append("M " + " ".join(("!" if rng.random() < 0.2 else "") + str(q) for q in final))
         pending += list(range(measured, measured + len(final)))
         measured += len(final)
     body += annotate(pending, measured)
@@ -623,11 +624,11 @@ def run(ctx: Ctx) -> int:
     sel_c5 = cov_c5 if not quick else [p for i, p in enumerate(cov_c5) if p[0] in ("gate1:H", "gate1:S", "gate1:SQRT_X", "gate1:SQRT_Y_DAG", "gate2:CX:01:1", "gate2:CZ:10:0")]
     for name, prep, body in sel_c5:
         add_task("coverage", "ColorEncoder5", prep, body)
-    for _ in range(8 if quick else 70):
+    for _ in range(6 if quick else 140):
         k = rng.choice([1, 2, 2, 3, 3])
         prep, body = sem_program(rng, k, det_w=3)
         add_task("random", "SteaneEncoder", prep, body)
-    for _ in range(3 if quick else 30):
+    for _ in range(2 if quick else 50):
         k = rng.choice([1, 1, 2, 3])
         prep, body = sem_program(rng, k, det_w=8, body_len=rng.randint(2, 5))
         add_task("random", "ColorEncoder5", prep, body)
@@ -639,26 +640,33 @@ def run(ctx: Ctx) -> int:
     # look-backs over several logical measurements in one annotation
     add_task("multi", "SteaneEncoder", "R 0 1\nU3(0.3125, 0.125, 0.4375) 0\nR_Y(0.375) 1\nT 1",
              "CZ 0 1\nH 0 1\nM 1 0\nDETECTOR rec[-1] rec[-2]\nOBSERVABLE_INCLUDE(0) rec[-1] rec[-2]\nOBSERVABLE_INCLUDE(1) rec[-2]\nOBSERVABLE_INCLUDE(0) rec[-2]")
-    # ---- probes of inputs at the edge of the property (each is a violation or a KNOWN-FINDING when it fails)
+    # ---- required behaviour: an inverted Z-basis measurement stays inverted (violation if it regresses)
     p0 = "R 0\nR_X(0.3125) 0"
     ann = "DETECTOR rec[-1]\nOBSERVABLE_INCLUDE(0) rec[-1]"
-    add_task("probe", "SteaneEncoder", p0, "M !0\n" + ann, key="SteaneEncoder:inverted-measurement-target")
-    add_task("probe", "SteaneEncoder", None, None, key="SteaneEncoder:initialize-called-twice",
+    for cls_name in ENCODERS:
+        add_task("required", cls_name, p0, "M !0\n" + ann, key=f"{cls_name}:inverted-measurement-target")
+    add_task("required", "SteaneEncoder", "R 0 1\nR_X(0.3125) 0\nH 1\nT 1", "H 1\nM 0 !1\nDETECTOR rec[-1]\nDETECTOR rec[-2]\n"
+             "OBSERVABLE_INCLUDE(0) rec[-2]\nOBSERVABLE_INCLUDE(1) rec[-1]", key="SteaneEncoder:inverted-measurement-target-mixed")
+    # ---- inside the gate-set quantifier, known not to hold: a logical qubit used again after its transversal measurement
+    add_task("probe", "SteaneEncoder", p0, "M 0\nH 0\nM 0\n" + ann, key=REUSE_KEY)
+    # ---- OUTSIDE the quantifier of the property (one initialize call must prepare every logical qubit that is used):
+    #      informational observations only, never violations
+    add_task("observation", "SteaneEncoder", None, None, key="initialize-called-twice (second call re-encodes the blocks of the first)",
              calls=[("i", p0), ("i", "R 1\nH 1"), ("t", "M 0 1\nDETECTOR rec[-2]\nOBSERVABLE_INCLUDE(0) rec[-2]\nOBSERVABLE_INCLUDE(1) rec[-1]")],
              unencoded="R 0 1\nR_X(0.3125) 0\nH 1\nM 0 1\nOBSERVABLE_INCLUDE(0) rec[-2]\nOBSERVABLE_INCLUDE(1) rec[-1]")
-    add_task("probe", "SteaneEncoder", p0, "H 1\nM 0 1\nDETECTOR rec[-1]\nOBSERVABLE_INCLUDE(0) rec[-2]\nOBSERVABLE_INCLUDE(1) rec[-1]",
-             key="SteaneEncoder:logical-qubit-not-initialized")
-    add_task("probe", "SteaneEncoder", p0, "M 0\nH 0\nM 0\n" + ann, key="SteaneEncoder:logical-qubit-reused-after-measurement")
+    add_task("observation", "SteaneEncoder", p0, "H 1\nM 0 1\nDETECTOR rec[-1]\nOBSERVABLE_INCLUDE(0) rec[-2]\nOBSERVABLE_INCLUDE(1) rec[-1]",
+             key="logical qubit never mentioned by the preparation program is not encoded")
     if not quick:
         for cls_name in ENCODERS:
             for g in EXTRA1:
                 add_task("outside", cls_name, "R 0\nU3(0.3125, 0.4375, 0.125) 0", f"{g} 0\nSQRT_X_DAG 0\nM 0\nOBSERVABLE_INCLUDE(0) rec[-1]")
 
-    workers = int(os.environ.get("VERIF_C20_WORKERS", "4"))
+    workers = int(os.environ.get("VERIF_C20_WORKERS", "5"))
     t_sem = time.time()
     results = run_tasks(tasks, workers)
     ctx.log(f"semantic search: {len(tasks)} encoded circuits in {time.time() - t_sem:.1f}s with {workers} workers")
     outside = {}
+    observations = []
     n_bad = 0
     for task, res in zip(tasks, results):
         ok, msg, det = judge(res)
@@ -670,12 +678,16 @@ def run(ctx: Ctx) -> int:
         if task["kind"] == "outside":
             outside.setdefault(task["encoder"], {})[task["calls"][1][1].split()[0]] = ok
             continue
+        if task["kind"] == "observation":
+            observations.append({"what": task["key"], "encoder": task["encoder"], "calls": task["calls"],
+                                 "agrees_with_unencoded_program": ok, "message": msg, "details": det})
+            continue
         if len(ctx.samples) < 6 and task["kind"] in ("random", "coverage") and ok:
             ctx.sample({"encoder": task["encoder"], "calls": task["calls"], "num_detectors": nd, "observables": det.get("encoded_observables")})
         if ok:
             continue
         n_bad += 1
-        if task["kind"] == "probe":
+        if task["kind"] in ("probe", "required"):
             ctx.violation(task["key"], f"{task['encoder']} calls {task['calls']}: {msg}", replay)
         elif n_bad <= 12:
             first = task["calls"][-1][1].splitlines()[0] if task["calls"] else ""
@@ -683,6 +695,7 @@ def run(ctx: Ctx) -> int:
             ctx.violation(key, f"{task['encoder']} calls {task['calls']}: {msg}", replay)
     if outside:
         ctx.cov["outside_gate_set_sampled_agrees"] = outside
+    ctx.cov["observations"] = observations
 
     # ---------------------------------------------------------------- verdict on broken ties
     if ctx.broken and not ctx.violations:
